@@ -26,14 +26,16 @@ RULE = ("geometries: shapes H,W in 1..9 (all parity combinations, 1xN and Nx1 in
         "unequal scales or non-zero origin/centre; distinct = distinct JSON input.")
 EXHAUSTIVE = {}
 TRUSTED = ["py2v plug-in py2v/gen_geometry.py (fail-closed ast -> Gallina over NumOps; coq/Gen/Gen_geometry.v regenerated from /repo on "
-           "every run): scalar conversions, Geometry1D/2D extent properties, the slim-grid conversion loops, the pixel-centre gathers "
-           "and the circular / annular / anti-annular constructor loops; pinned glue: Geometry*.__init__, convert_pixel_scales_2d, "
-           "total_pixels_{1,2}d_from",
-           "hand model of the two elliptical constructors (Model/C02x.v): arctan2/radians/sin/cos replaced by the angle-addition "
-           "identities on a (cos, sin) pair -- modelled, not verified; compared with the implementation on every KEll/KEllAnn case",
+           "every run): scalar conversions, Geometry1D/2D extent properties, the slim-grid conversion loops, the pixel-centre gathers, "
+           "the circular / annular / anti-annular constructor loops and (over R only) elliptical_radius_from and the two elliptical "
+           "constructor loops; pinned glue: Geometry*.__init__, convert_pixel_scales_2d, total_pixels_{1,2}d_from",
+           "NumPy oracle contract written in the header of Gen_geometry.v: arctan2 = angle of (x, y) in (-pi, pi], radians = d pi/180, "
+           "sin / cos / sqrt = the mathematical functions, element-wise double arithmetic = real arithmetic on the exact stream",
+           "executable (cos, sin)-pair form of the elliptical constructors (Model/C02x.v): PROVED equal to the generated trigonometric "
+           "code for every angle; the harness hands it Fraction(math.cos(radians(angle))) (or the exact Pythagorean pair), i.e. trusts "
+           "libm's cos/sin to 1e-9 (checked per case), decisions kept 1e-6 away",
            "QOps execution: sqrtT is a 2^-64 rational approximation (exact on squares of rationals); generated radii keep it away "
            "from every decision unless the tie is exact",
-           "numpy element-wise double arithmetic = real arithmetic on the exact stream (dyadic values, small exponents)",
            "correspondence harness harness/c02.py (Fraction(float) conversion, exact margins)"]
 ASSUMPTIONS = ["real arithmetic (no rounding): theorems over R; the exact stream makes double arithmetic exact, the tolerance stream "
                "stays 1e-6 away from every decision, which is the exclusion band of the property text (1e-9) with room to spare",
